@@ -242,6 +242,11 @@ class C10(SessimProp):
                 which = [k for k in a if a[k] != b[k]]
                 cls = "probe-differs"
                 pk = probe.split(" ")[0] if probe.startswith(":") else ("local" if probe in LOCAL_NAMES else "expr")
+                if any(i > 0 and s["kind"].endswith("/test") for i, s in enumerate(case["stops"])):
+                    # a test definition was evaluated while the session was already stopped: the known
+                    # "test run while stopped" defect (it unwinds the stopped evaluation and may switch
+                    # the toplevel to the stopped frame's namespace) - keyed apart from abort's own work
+                    pk = "test-run-while-stopped:" + pk
                 return "ok", (cls, f"C10:probe-differs:{pk}",
                               f"probe #{i} {probe!r} after :abort answered {a} but a fresh session with the same "
                               f"definitions and toplevel variables answers {b} (differs in {which})")
